@@ -55,6 +55,11 @@ def rcell(b):
 
 class C09(XsProp):
     id = 'C09'
+    trusted_base = XS_TRUSTED + [
+        'Flocq 4 (binary64 operations of Model/F64.v; the xf stream runs the model with them)',
+        'axioms, used ONLY by the theorems of Props/C09_ieee.v (the IEEE-754 meaning on real numbers, through Flocq and Coq Reals): '
+        'Classical_Prop.classic, ClassicalDedekindReals.sig_not_dec, ClassicalDedekindReals.sig_forall_dec, '
+        'FunctionalExtensionality.functional_extensionality_dep; all theorems of Props/C09.v are closed under the global context']
     rule = ('operand grids: i128 {min, min+1, -2^64+-1, -1, 0, 1, 2^63+-1, 2^64+-1, max-1, max, 2^k, 2^k+-1, random} squared for every '
             'binary integer word, all shift counts 0..127 for bsl/bsr, unary words on the grid; f64 {+-0, +-min subnormal, +-min normal, '
             '+-1, +-max, +-inf, halves, 2^53 neighbourhood, i128 range edges, NaNs (arithmetic words only), random patterns} squared; every '
